@@ -384,7 +384,8 @@ Section Indep.
     (ungated tbl l KAbsSrc || ungated tbl l KPickle
        || (ungated tbl l KPlatform && negb (sf_platform_gated sf))
        || (ungated tbl l KTmplSets && negb (sf_template_sets_pure sf)) = true -> e_abs e1 = e_abs e2) /\
-    (ungated tbl l KCwd = true -> e_cwd e1 = e_cwd e2).
+    (ungated tbl l KCwd = true -> e_cwd e1 = e_cwd e2) /\
+    (ungated tbl l KOutPath = true -> e_out e1 = e_out e2).
 
   (* the source facts the order-independence needs for this configuration *)
   (* configuration files, if any, are loaded in command-line order *)
@@ -413,13 +414,14 @@ Section Indep.
     c_embed_audit c = false -> In s tbl -> lang_eqb (s_lang s) (c_lang c) = true ->
     env_agree (c_lang c) e1 e2 -> eval_site sf e1 c it s = eval_site sf e2 c it s.
   Proof.
-    intros Ha Hin Hl (Hc & Hp & Hw). unfold eval_site. rewrite Ha. cbn [negb]. rewrite andb_true_r.
+    intros Ha Hin Hl (Hc & Hp & Hw & Ho). unfold eval_site. rewrite Ha. cbn [negb]. rewrite andb_true_r.
     destruct (s_gated s) eqn:Hg; [reflexivity|].
     destruct (s_kind s) eqn:Hk; cbn [orb].
     - rewrite Hc; [reflexivity|]. eapply ungated_intro; eauto.
     - rewrite Hp; [reflexivity|]. erewrite (ungated_intro _ KAbsSrc); eauto.
     - rewrite Hp; [reflexivity|]. erewrite (ungated_intro _ KPickle); eauto. rewrite orb_true_r. reflexivity.
     - rewrite Hw; [reflexivity|]. eapply ungated_intro; eauto.
+    - rewrite Ho; [reflexivity|]. eapply ungated_intro; eauto.
     - destruct (sf_platform_gated sf) eqn:Hpg; cbn [negb]; [reflexivity|].
       rewrite Hp; [reflexivity|]. erewrite (ungated_intro _ KPlatform); eauto.
       cbn [andb negb]. rewrite orb_true_r. reflexivity.
@@ -596,7 +598,7 @@ Section Indep.
   Proof.
     intros Hc. unfold env_agree.
     rewrite (clean_no_ungated l KClock Hc), (clean_no_ungated l KAbsSrc Hc), (clean_no_ungated l KPickle Hc),
-            (clean_no_ungated l KCwd Hc), (clean_platform l Hc), (clean_tmplsets l Hc) by discriminate.
+            (clean_no_ungated l KCwd Hc), (clean_no_ungated l KOutPath Hc), (clean_platform l Hc), (clean_tmplsets l Hc) by discriminate.
     cbn. repeat split; discriminate.
   Qed.
 
@@ -683,7 +685,7 @@ Section Indep.
       repeat match goal with H : _ = true |- _ => rewrite H end.
       destruct (c_config_files c); reflexivity.
     - unfold env_agree.
-      rewrite (pickle_only_no_ungated _ KClock Hc), (pickle_only_no_ungated _ KCwd Hc) by discriminate.
+      rewrite (pickle_only_no_ungated _ KClock Hc), (pickle_only_no_ungated _ KCwd Hc), (pickle_only_no_ungated _ KOutPath Hc) by discriminate.
       repeat split; try discriminate. intros _; exact Habs.
   Qed.
 
@@ -840,6 +842,17 @@ Theorem unaccounted_row_refuted :
     files _ facts_unknown_read [] render0 e1 (mk_cfg LHtml false) I p
     <> files _ facts_unknown_read [] render0 e2 (mk_cfg LHtml false) I p.
 Proof. exists ex_inputs, env_a, env_b, (p_A (mk_cfg LHtml false)). vm_compute. discriminate. Qed.
+
+(* the Namespace path API printed ungated: the OUTPUT location shows (inputs unmoved) *)
+Theorem output_location_refuted :
+  exists I e1 e2 p,
+    e_abs e1 = e_abs e2 /\
+    files _ facts_all_true tbl_outpath render0 e1 (mk_cfg LC false) I p
+    <> files _ facts_all_true tbl_outpath render0 e2 (mk_cfg LC false) I p.
+Proof.
+  exists ex_inputs, env_a, (with_out env_a [[122]; [111]]), (p_A (mk_cfg LC false)). split; [reflexivity|].
+  vm_compute. discriminate.
+Qed.
 
 (* with --embed-auditing-info the files MAY differ: the premise of the theorem is needed *)
 Theorem audit_on_may_differ :
